@@ -1053,8 +1053,27 @@ func (e *Exec) send(fr *frame, st *State, x *ssa.Send) bool {
 		}
 	}
 	e.trusted("D3: channel operations: a receive yields an arbitrary value, a send does not change the verified state, select picks any case; goroutine interleaving is not modelled")
-	e.oblige(st, "safe", "safe.send@closed", tNot(e.chanClosed(st, ch)), e.pos(x.Pos()))
+	e.sendClosedObl(st, ch, e.pos(x.Pos()))
+	if e.nonblocking() {
+		e.oblige(st, "nonblocking", "nonblocking.send", tFalse, e.pos(x.Pos()))
+	}
 	return true
+}
+
+// nonblocking: the function under verification is declared `attr nonblocking=1` — it must not
+// contain a channel operation that can wait (a plain send or receive, or a select without default).
+func (e *Exec) nonblocking() bool {
+	return e.topCt != nil && e.topCt.Attrs["nonblocking"] != "" && e.spec == 0
+}
+
+// sendClosedObl: a send on a closed channel panics.  A function declared `maypanic` is allowed
+// exactly this panic (its callers must contain it: safe.panic@unrecovered at their call sites).
+func (e *Exec) sendClosedObl(st *State, ch Term, where string) {
+	if e.topCt != nil && e.topCt.MayPanic {
+		e.trusted("declared maypanic: a send on a closed channel in " + shortKey(e.topCt.Key) + " is tolerated (callers must recover)")
+		return
+	}
+	e.oblige(st, "safe", "safe.send@closed", tNot(e.chanClosed(st, ch)), where)
 }
 
 func (e *Exec) recv(fr *frame, st *State, x *ssa.UnOp) bool {
@@ -1065,6 +1084,9 @@ func (e *Exec) recv(fr *frame, st *State, x *ssa.UnOp) bool {
 	}
 	v := e.smt.fresh("recv", e.ti.sortOf(et))
 	e.assume(st, e.wellTypedDeep(st, et, v))
+	if e.nonblocking() {
+		e.oblige(st, "nonblocking", "nonblocking.recv", tFalse, e.pos(x.Pos()))
+	}
 	okT := e.smt.fresh("recvok", SBool)
 	if _, isStruct := et.Underlying().(*types.Struct); !isStruct {
 		e.recvAssume(fr, st, x.X, v, okT)
@@ -1083,6 +1105,8 @@ func (e *Exec) selectInstr(fr *frame, st *State, x *ssa.Select) bool {
 	lo := int64(0)
 	if !x.Blocking {
 		lo = -1
+	} else if e.nonblocking() {
+		e.oblige(st, "nonblocking", "nonblocking.select", tFalse, e.pos(x.Pos()))
 	}
 	e.assume(st, tAnd(tLe(tInt(lo), idx), tLt(idx, tInt(int64(len(x.States))))))
 	selok := e.smt.fresh("selok", SBool)
@@ -1101,7 +1125,7 @@ func (e *Exec) selectInstr(fr *frame, st *State, x *ssa.Select) bool {
 			vals = append(vals, v)
 		} else {
 			ch := e.term(fr, st, sc.Chan)
-			e.oblige(st, "safe", "safe.send@closed", tNot(e.chanClosed(st, ch)), e.pos(x.Pos()))
+			e.sendClosedObl(st, ch, e.pos(x.Pos()))
 			if e.spec == 0 && e.quant == 0 {
 				if g, found := e.chanPred(fr, st, sc.Chan, "chaninv_", e.val(fr, st, sc.Send), fr.entryState); found {
 					name, _ := chanField(sc.Chan)
